@@ -216,7 +216,14 @@ theorem stM_ginv (sh : Shared) (a b : Vsys) (hP : GrpPair sh a b) : GInv (RefG b
     apply lastIdx_none_of_not_mem
     rw [stM_bGrp_names]; exact hm
   refine ⟨by rw [stM_aGrp_names]; exact hagn, by rw [stM_bGrp_names]; exact hbgn, ?_, ?_, ?_, ?_, ?_, ?_, ?_, ?_,
-    ?_, ?_, ?_⟩
+    ?_, ?_, ?_, ?_, ?_⟩
+  rotate_right
+  · intro gb hgb hne
+    exact absurd (stM_bGrp_mem a b hgb).choose_spec.2.2.2 hne
+  rotate_right
+  · intro ga hga hn
+    obtain ⟨_, _, _, hnn⟩ := stM_aGrp_mem a b hga
+    rw [hnn] at hn; cases hn
   · intro ga hga
     obtain ⟨gr, hgr, e, _⟩ := stM_aGrp_mem a b hga
     rw [e]
